@@ -70,7 +70,7 @@ fn verif_error(kind: ErrorKind) -> (e: Error) ensures e.kind == kind { Error { k
 pub struct StackS { pub ghost view: Seq<Value> }
 
 //@struct file=yarel/src/object.rs name=CallFrame map "*const u8" => "usize"
-//@struct file=yarel/src/object.rs name=ObjFiber keepfields=caller,stack,frames map "Stack<Value, STACK_MAX>" => "StackS"
+//@struct file=yarel/src/object.rs name=ObjFiber keepfields=caller,stack,frames,handling_exception map "Stack<Value, STACK_MAX>" => "StackS"
 impl ObjFiber {
     //@fn file=yarel/src/object.rs path=ObjFiber::has_finished ret=r
     //@  ensures r == (self.frames@.len() == 0)
@@ -84,12 +84,13 @@ impl ObjFiber {
     fn current_frame_mut(&mut self) -> (r: Option<&mut CallFrame>)
         requires old(self).frames@.len() > 0
         ensures r matches Some(f) && *f == old(self).frames@.last() && final(self).frames@ == old(self).frames@.drop_last().push(*final(f)),
-            final(self).stack == old(self).stack, final(self).caller == old(self).caller,
+            final(self).stack == old(self).stack, final(self).caller == old(self).caller, final(self).handling_exception == old(self).handling_exception,
     { unimplemented!() }
 }
 
 // the VM as far as this unit is concerned
 pub struct Vm {
+    pub handling_exception: bool,
     pub ip: usize,
     pub fiber: Option<Root<RefCell<ObjFiber>>>,
     pub unsafe_fiber: FiberPtr,
@@ -100,7 +101,7 @@ impl Vm {
     pub open spec fn active_id(&self) -> int { self.fiber->0.id() }
     pub open spec fn active(&self) -> ObjFiber { self.heap[self.active_id()] }
     pub open spec fn wf(&self) -> bool { self.fiber is Some ==> self.heap.dom().contains(self.active_id()) }
-    pub open spec fn handles_same(&self, o: &Vm) -> bool { self.fiber == o.fiber && self.unsafe_fiber == o.unsafe_fiber && self.ip == o.ip }
+    pub open spec fn handles_same(&self, o: &Vm) -> bool { self.fiber == o.fiber && self.unsafe_fiber == o.unsafe_fiber && self.ip == o.ip && self.handling_exception == o.handling_exception }
 
     // `g.borrow()` on a fiber cell
     #[verifier::external_body]
@@ -123,7 +124,7 @@ impl Vm {
     fn clear_caller(&mut self, current: Option<Root<RefCell<ObjFiber>>>)
         requires current matches Some(c) && old(self).heap.dom().contains(c.id())
         ensures old(self).handles_same(final(self)),
-            final(self).heap == old(self).heap.insert(current->0.id(), ObjFiber { caller: None, stack: old(self).heap[current->0.id()].stack, frames: old(self).heap[current->0.id()].frames }),
+            final(self).heap == old(self).heap.insert(current->0.id(), ObjFiber { caller: None, stack: old(self).heap[current->0.id()].stack, frames: old(self).heap[current->0.id()].frames, handling_exception: old(self).heap[current->0.id()].handling_exception }),
     { unimplemented!() }
 
     // operand-stack helpers of the ACTIVE fiber (vm.rs push/pop/poke: proved against Stack's contract in unit `exc`)
@@ -131,26 +132,26 @@ impl Vm {
     fn pop(&mut self) -> (r: Value)
         requires old(self).fiber is Some, old(self).heap.dom().contains(old(self).active_id()), old(self).active().stack.view.len() > 0
         ensures old(self).handles_same(final(self)), r == old(self).active().stack.view.last(),
-            final(self).heap == old(self).heap.insert(old(self).active_id(), ObjFiber { caller: old(self).active().caller, stack: StackS { view: old(self).active().stack.view.drop_last() }, frames: old(self).active().frames }),
+            final(self).heap == old(self).heap.insert(old(self).active_id(), ObjFiber { caller: old(self).active().caller, stack: StackS { view: old(self).active().stack.view.drop_last() }, frames: old(self).active().frames, handling_exception: old(self).active().handling_exception }),
     { unimplemented!() }
     #[verifier::external_body]
     fn push(&mut self, value: Value)
         requires old(self).fiber is Some, old(self).heap.dom().contains(old(self).active_id()), old(self).active().stack.view.len() < STACK_MAX
         ensures old(self).handles_same(final(self)),
-            final(self).heap == old(self).heap.insert(old(self).active_id(), ObjFiber { caller: old(self).active().caller, stack: StackS { view: old(self).active().stack.view.push(value) }, frames: old(self).active().frames }),
+            final(self).heap == old(self).heap.insert(old(self).active_id(), ObjFiber { caller: old(self).active().caller, stack: StackS { view: old(self).active().stack.view.push(value) }, frames: old(self).active().frames, handling_exception: old(self).active().handling_exception }),
     { unimplemented!() }
     #[verifier::external_body]
     fn poke(&mut self, depth: usize, value: Value)
         requires old(self).fiber is Some, old(self).heap.dom().contains(old(self).active_id()), depth < old(self).active().stack.view.len()
         ensures old(self).handles_same(final(self)),
-            final(self).heap == old(self).heap.insert(old(self).active_id(), ObjFiber { caller: old(self).active().caller, stack: StackS { view: old(self).active().stack.view.update(old(self).active().stack.view.len() - 1 - depth, value) }, frames: old(self).active().frames }),
+            final(self).heap == old(self).heap.insert(old(self).active_id(), ObjFiber { caller: old(self).active().caller, stack: StackS { view: old(self).active().stack.view.update(old(self).active().stack.view.len() - 1 - depth, value) }, frames: old(self).active().frames, handling_exception: old(self).active().handling_exception }),
     { unimplemented!() }
     // ip := saved ip of the active fiber's current frame (plus active chunk / module, not modelled)
     #[verifier::external_body]
     fn load_frame(&mut self)
         requires old(self).fiber is Some, old(self).heap.dom().contains(old(self).active_id()), old(self).active().frames@.len() > 0
         ensures final(self).fiber == old(self).fiber, final(self).unsafe_fiber == old(self).unsafe_fiber, final(self).heap == old(self).heap,
-            final(self).ip == old(self).active().frames@.last().ip,
+            final(self).ip == old(self).active().frames@.last().ip, final(self).handling_exception == old(self).handling_exception,
     { unimplemented!() }
 
     // `f.call(arg)`. Rejected (finished fiber, or one that is already running / waiting for a callee): an error and
@@ -179,6 +180,7 @@ impl Vm {
     //@  ensures @callee_frames_kept r is Ok ==> final(self).heap[fiber.id()].frames == old(self).heap[fiber.id()].frames && final(self).ip == old(self).heap[fiber.id()].frames@.last().ip
     //@  ensures @caller_suspended_after_argument_removed (r is Ok && old(self).fiber is Some) ==> final(self).heap[old(self).active_id()].stack.view == (if arg is Some { old(self).active().stack.view.drop_last() } else { old(self).active().stack.view }) && final(self).heap[old(self).active_id()].frames@.last().ip == old(self).ip && final(self).heap[old(self).active_id()].frames@.drop_last() == old(self).active().frames@.drop_last() && final(self).heap[old(self).active_id()].caller == old(self).active().caller
     //@  ensures @other_fibers_untouched forall|i: int| old(self).heap.dom().contains(i) && i != fiber.id() && !(old(self).fiber is Some && i == old(self).active_id()) ==> final(self).heap.dom().contains(i) && final(self).heap[i] == old(self).heap[i]
+    //@  ensures @exception_in_flight_stays_with_its_fiber r is Ok ==> final(self).handling_exception == old(self).heap[fiber.id()].handling_exception && (old(self).fiber is Some ==> final(self).heap[old(self).active_id()].handling_exception == old(self).handling_exception)
     //@end
 
     // `Fiber.yield(arg)` / end of a fiber body (arg None, frames empty). Outside any fiber (no caller): an error.
@@ -200,6 +202,7 @@ impl Vm {
     //@  ensures @caller_continues_where_it_called r is Ok ==> final(self).active().frames == old(self).heap[old(self).active().caller->0.id()].frames && final(self).ip == final(self).active().frames@.last().ip && final(self).active().caller == old(self).heap[old(self).active().caller->0.id()].caller
     //@  ensures @yielding_fiber_suspended r is Ok ==> final(self).heap[old(self).active_id()].caller is None && final(self).heap[old(self).active_id()].stack.view == (if arg is Some { old(self).active().stack.view.drop_last() } else { old(self).active().stack.view }) && (old(self).active().frames@.len() > 0 ==> final(self).heap[old(self).active_id()].frames@.last().ip == old(self).ip && final(self).heap[old(self).active_id()].frames@.drop_last() == old(self).active().frames@.drop_last()) && (old(self).active().frames@.len() == 0 ==> final(self).heap[old(self).active_id()].frames == old(self).active().frames)
     //@  ensures @other_fibers_untouched r is Ok ==> forall|i: int| old(self).heap.dom().contains(i) && i != old(self).active_id() && i != old(self).active().caller->0.id() ==> final(self).heap.dom().contains(i) && final(self).heap[i] == old(self).heap[i]
+    //@  ensures @exception_in_flight_stays_with_its_fiber r is Ok ==> final(self).handling_exception == old(self).heap[old(self).active().caller->0.id()].handling_exception && final(self).heap[old(self).active_id()].handling_exception == old(self).handling_exception
     //@end
 }
 
